@@ -787,3 +787,121 @@ def cluster_check(promote):
 
 CHECKS["C11"] = cluster_check(False)
 CHECKS["C12"] = cluster_check(True)
+
+
+# ----------------------------------------------------------------------------- C18: ReDB
+REDB_TRACE_CFG = """SPECIFICATION TraceSpec
+CONSTANTS
+  Dev = @DEV@
+  Meaning <- TraceMeaning
+@INV@
+POSTCONDITION TraceAccepted
+CHECK_DEADLOCK FALSE
+"""
+
+
+def redb_scenarios(tier, rnd):
+    n = 40 if tier == "quick" else 1200
+    base = gens.gen_mixed({"connect": 2, "gg": 3, "lw": 3, "set": 30, "cset": 16, "delete": 10, "pdelete": 6, "import": 3, "disconnect": 2},
+                          nclients=2, need_connect=True)
+    scs, meaning = [], None
+    for i in range(n):
+        hdr, reqs = base(rnd, rnd.randint(3, 25))
+        if meaning is None:
+            meaning = hdr["meaning"]
+            # one meaning table for the whole file: last wills on keys of their own, patterns from a fixed pool
+            for t in range(5):
+                meaning["lw%d" % t] = {"gg": [], "lw": [{"k": ["lwk", "t%d" % t], "v": "w%d" % t}]}
+                meaning["gg%d" % t] = {"gg": [[["a", "#"], ["b", "?"], ["c"], ["a", "b"], ["?", "a"]][t]], "lw": []}
+        ops = []
+        for r in reqs:
+            if r["op"] in ("set", "cset") and (r.get("val") == "j:null" or "Cas" in r.get("val", "")):
+                r = dict(r, val="v1")     # D_NULL_RELOAD / D_CAS_SHAPED are C09's subject
+            if r["op"] == "set" and r["key"][:2] == ["$SYS", "clients"] and r["key"][-1] == "graveGoods" and r["c"] != "c1":
+                continue        # grave goods of one client only (order of application across clients is unspecified)
+            ops.append({"op": "req", "r": r})
+            if rnd.random() < 0.25:
+                ops.append({"op": "yield", "ms": rnd.choice([1, 1, 2, 5])})
+        ops.append({"op": "stop", "clean": rnd.random() < 0.3})
+        scs.append(ops)
+    return meaning, scs
+
+
+def c18_check(prop, tier, seed, replay):
+    known = vlib.known_flags()
+    build_s = vlib.build_harness()
+    d = vlib.workdir(prop)
+    known_seen, violations = {}, []
+    rnd = random.Random(seed)
+
+    def run_files(meaning, batches, tag):
+        def one(ib):
+            i, scs = ib
+            req = os.path.join(d, f"req_{tag}{i}.ndjson")
+            tr = os.path.join(d, f"tr_{tag}{i}.ndjson")
+            with open(req, "w") as f:
+                f.write(json.dumps({"hdr": True, "meaning": meaning}) + "\n")
+                for j, ops in enumerate(scs):
+                    if j:
+                        f.write('{"op":"reset"}\n')
+                    for o in ops:
+                        f.write(json.dumps(o) + "\n")
+            vlib.run_harness(["redb-run", req, tr, os.path.join(d, f"dirs_{tag}{i}")], timeout=3000)
+            r = vlib.validate(d, "Trace_Redb", REDB_TRACE_CFG, tr, "", known, 1200)
+            r["req"], r["trace"], r["n"], r["scs"] = req, tr, sum(1 for _ in open(tr)) - 1, scs
+            return r
+        return vlib.parallel(one, list(enumerate(batches)), nproc=6)
+
+    def handle(res, meaning, tag):
+        for r in res:
+            if r["status"] == "known":
+                for f in r["flags"]:
+                    known_seen[f] = known_seen.get(f, 0) + 1
+            elif r["status"] == "violation":
+                det = r.get("detail", {})
+                recno = rejected_recno(det)
+                payload = {"property": prop, "kind": "redb-scenario", "detail": det, "meaning": meaning}
+                tl = open(r["trace"]).read().splitlines()
+                nres = sum(1 for x in tl[1:recno or 1] if x.startswith('{"op":"reset"'))
+                payload["scenario"] = r["scs"][nres] if nres < len(r["scs"]) else r["scs"][0]
+                if recno:
+                    payload["observed_tail"] = [json.loads(x) for x in tl[max(1, recno - 4):recno]]
+                p = vlib.save_replay(prop, f"{tag}_{len(violations)}", payload)
+                violations.append({"replay": p, "what": det.get("rejected") or det.get("error")})
+
+    if replay:
+        pl = json.load(open(replay))
+        for k in range(3):
+            res = run_files(pl["meaning"], [[pl["scenario"]]], f"replay{k}")
+            handle(res, pl["meaning"], "replay")
+            if violations:
+                break
+        return {"known": known_seen, "violations": violations}
+
+    t1 = time.time()
+    out = vlib.tlc(d, "Redb", open(os.path.join(vlib.SPEC, "MC_C18.cfg" if tier == "quick" else "MC_C18_thorough.cfg")).read(), workers=8, timeout=3000, heap="8g")
+    err, st = vlib.tlc_error(out), vlib.tlc_stats(out)
+    if err or not st:
+        raise ToolError("model checking of Redb failed: %s\n%s" % (err, out[-3000:]))
+    log(f"[{prop}] TLC Redb (intended design): {st['distinct']} distinct states, {st['generated']} transitions, {time.time()-t1:.0f}s")
+    meaning, scs = redb_scenarios(tier, rnd)
+    nb = 6
+    t2 = time.time()
+    res = run_files(meaning, [scs[i::nb] for i in range(nb) if scs[i::nb]], "b")
+    handle(res, meaning, "b")
+    nrec = sum(r["n"] for r in res)
+    for i in range(nb):
+        shutil.rmtree(os.path.join(d, f"dirs_b{i}"), ignore_errors=True)
+    log(f"[{prop}] {len(scs)} histories on a real server with the ReDB backend (abrupt and clean stops), {nrec} records validated, {time.time()-t2:.0f}s")
+    cov = {"states": st["distinct"], "transitions": st["generated"], "traces_validated_against_impl": len(scs),
+           "samples": [scs[0][:10]], "exhaustive": False, "trace_records_validated": nrec,
+           "explanation": "TLC exhaustive on the writer/batcher/crash/load model; real servers with the ReDB backend are stopped abruptly (runtime dropped) "
+                          "or cleanly after seeded histories with random yields; TLC decides whether some prefix of the applied changes explains the state "
+                          "the second server recovered"}
+    return {"coverage": cov, "known": known_seen, "violations": violations,
+            "assumptions": ["an abrupt stop drops the runtime: the writer stops at an await point or between transactions; a kill inside a redb commit is redb's own atomicity and trusted",
+                            "changes of one request reach the writer in unspecified order: any subset of them may be present at the cut",
+                            "grave goods of one client only"]}
+
+
+CHECKS["C18"] = c18_check
